@@ -1,7 +1,792 @@
-//! C24 — not implemented yet.
+//! C24 — every HTTP request gets a well-formed response.
+//! Engine: httpmc --robust — exhaustive enumeration of well-framed HTTP/1.1 requests (method x
+//! path x content type x body) against live `searchlite_http::run` servers in three index states,
+//! sent as raw bytes over a TcpStream; `GET /healthz` after every request.
+
+use std::collections::{BTreeMap, HashSet};
+use std::sync::atomic::{AtomicBool, AtomicU64, Ordering};
+use std::time::Duration;
+
+use parking_lot::Mutex;
+use rayon::prelude::*;
+use serde_json::{json, Value};
+
+use vcore::ev::Reporter;
+
+use crate::c23::{envelope, exchange, http_schema, request_bytes, Resp, Server};
 use crate::Ctx;
 
-pub fn run(_ctx: &Ctx) -> i32 {
-  eprintln!("C24: check not implemented");
-  2
+const MAX_BODY: usize = 2048;
+const TIMEOUT: Duration = Duration::from_secs(25);
+
+pub const SIG_UNKNOWN_ROUTE: &str = "C24-unknown-route-empty-body";
+pub const SIG_METHOD: &str = "C24-method-not-allowed-empty-body";
+pub const SIG_PANIC_DROP: &str = "C24-panic-in-handler-drops-connection";
+pub const SIG_PANIC_500: &str = "C24-non-ascii-cursor-panics-500";
+
+#[derive(Clone, Copy, Debug, PartialEq, Eq, Hash, PartialOrd, Ord)]
+enum St {
+  NoIndex,
+  Index,
+  Queued,
+}
+
+impl St {
+  fn name(self) -> &'static str {
+    match self {
+      St::NoIndex => "no_index",
+      St::Index => "index",
+      St::Queued => "index+queued",
+    }
+  }
+  fn from_name(s: &str) -> St {
+    match s {
+      "no_index" => St::NoIndex,
+      "index" => St::Index,
+      _ => St::Queued,
+    }
+  }
+}
+
+struct Route {
+  path: &'static str,
+  method: &'static str,
+  needs_index: bool,
+  /// documented request content type and a valid body, for routes that take one
+  body: Option<(&'static str, &'static str)>,
+}
+
+const JSON: &str = "application/json";
+const NDJSON: &str = "application/x-ndjson";
+
+const V_INIT: &str = r#"{"doc_id_field":"_id","text_fields":[{"name":"body","analyzer":"default","stored":true,"indexed":true}],"keyword_fields":[],"numeric_fields":[]}"#;
+const V_ADD: &str = "{\"_id\":\"k\",\"body\":\"rust\"}\n";
+const V_BULK: &str = r#"{"docs":[{"_id":"k","body":"rust"}]}"#;
+const V_DELETE: &str = r#"{"ids":["k"]}"#;
+const V_SEARCH: &str = r#"{"query":{"type":"match_all"},"limit":5,"return_stored":true}"#;
+
+// second valid bodies (thorough tier): more syntax to mutate
+const V_INIT2: &str = r#"{"doc_id_field":"_id","text_fields":[{"name":"body","analyzer":"default","stored":true,"indexed":true}],"keyword_fields":[{"name":"tag","stored":true,"indexed":true,"fast":true}],"numeric_fields":[{"name":"n","i64":true,"fast":true,"stored":true}]}"#;
+const V_ADD2: &str = "{\"_id\":\"k\",\"body\":\"rust\"}\n\n{\"_id\":\"n\",\"body\":[\"go\",\"zig\"]}\n";
+const V_BULK2: &str = r#"{"docs":[{"_id":"k","body":"rust"},{"_id":"n","body":["go"]}]}"#;
+const V_DELETE2: &str = r#"{"ids":["k","zz"]}"#;
+const V_SEARCH2: &str = r#"{"query":"rust","limit":2,"return_stored":false,"sort":[{"field":"_score","order":"desc"}],"execution":"bm25","cursor":null}"#;
+
+fn valid_bodies(r: &Route) -> Vec<&'static str> {
+  match r.path {
+    "/init" => vec![V_INIT, V_INIT2],
+    "/add" => vec![V_ADD, V_ADD2],
+    "/bulk" => vec![V_BULK, V_BULK2],
+    "/delete" => vec![V_DELETE, V_DELETE2],
+    "/search" => vec![V_SEARCH, V_SEARCH2],
+    _ => vec![],
+  }
+}
+
+const ROUTES: [Route; 11] = [
+  Route { path: "/healthz", method: "GET", needs_index: false, body: None },
+  Route { path: "/init", method: "POST", needs_index: false, body: Some((JSON, V_INIT)) },
+  Route { path: "/add", method: "POST", needs_index: true, body: Some((NDJSON, V_ADD)) },
+  Route { path: "/bulk", method: "POST", needs_index: true, body: Some((JSON, V_BULK)) },
+  Route { path: "/delete", method: "POST", needs_index: true, body: Some((JSON, V_DELETE)) },
+  Route { path: "/commit", method: "POST", needs_index: true, body: None },
+  Route { path: "/refresh", method: "POST", needs_index: true, body: None },
+  Route { path: "/compact", method: "POST", needs_index: true, body: None },
+  Route { path: "/search", method: "POST", needs_index: true, body: Some((JSON, V_SEARCH)) },
+  Route { path: "/inspect", method: "GET", needs_index: true, body: None },
+  Route { path: "/stats", method: "GET", needs_index: true, body: None },
+];
+
+fn route_of(path: &str) -> Option<&'static Route> {
+  ROUTES.iter().find(|r| r.path == path)
+}
+
+const METHODS: [&str; 4] = ["GET", "POST", "PUT", "DELETE"];
+const CTYPES: [Option<&str>; 4] = [None, Some(JSON), Some(NDJSON), Some("text/plain")];
+
+#[derive(Clone, Copy, Debug, PartialEq, Eq, Hash, PartialOrd, Ord)]
+enum Class {
+  /// no body, no Content-Length
+  NoBody,
+  /// Content-Length: 0
+  Empty,
+  Brace,
+  Valid,
+  Mutant,
+  NonUtf8,
+  Oversize,
+  ErrSearch,
+}
+
+#[derive(Clone, Debug)]
+struct Req {
+  method: &'static str,
+  path: String,
+  ctype: Option<&'static str>,
+  body: Option<Vec<u8>>,
+  class: Class,
+  /// human description of the body
+  desc: String,
+}
+
+impl Req {
+  fn key(&self) -> (String, String, Option<&'static str>, Option<Vec<u8>>) {
+    (self.method.to_string(), self.path.clone(), self.ctype, self.body.clone())
+  }
+  fn line(&self) -> String {
+    format!("{} {} content-type={} body={}", self.method, self.path, self.ctype.unwrap_or("<none>"), self.desc)
+  }
+  fn to_json(&self, st: St) -> Value {
+    json!({"engine": "httpmc-robust", "state": st.name(), "server_flags": ["--max-body-bytes", MAX_BODY.to_string()],
+      "method": self.method, "path": self.path, "content_type": self.ctype, "body_class": format!("{:?}", self.class), "body_desc": self.desc,
+      "body_hex": self.body.as_ref().map(|b| b.iter().map(|x| format!("{x:02x}")).collect::<String>())})
+  }
+  fn from_json(v: &Value) -> (St, Req) {
+    let st = St::from_name(v["state"].as_str().unwrap_or(""));
+    let m = v["method"].as_str().unwrap_or("GET");
+    let method = METHODS.iter().copied().find(|x| *x == m).unwrap_or("GET");
+    let ctype = v["content_type"].as_str().and_then(|c| CTYPES.iter().flatten().copied().find(|x| *x == c));
+    let body = v["body_hex"].as_str().map(|h| (0..h.len() / 2).map(|i| u8::from_str_radix(&h[2 * i..2 * i + 2], 16).unwrap_or(0)).collect::<Vec<u8>>());
+    let cls = v["body_class"].as_str().unwrap_or("");
+    let class = [Class::NoBody, Class::Empty, Class::Brace, Class::Valid, Class::Mutant, Class::NonUtf8, Class::Oversize, Class::ErrSearch]
+      .into_iter()
+      .find(|c| format!("{c:?}") == cls)
+      .unwrap_or(Class::Mutant);
+    (st, Req { method, path: v["path"].as_str().unwrap_or("/").to_string(), ctype, body, class, desc: v["body_desc"].as_str().unwrap_or("").to_string() })
+  }
+}
+
+fn printable(b: u8) -> String {
+  if (0x21..0x7f).contains(&b) {
+    format!("'{}'", b as char)
+  } else {
+    format!("0x{b:02x}")
+  }
+}
+
+/// Every route, every single-character edit of every route (the leading '/' is kept so that the
+/// request target stays a valid origin-form), and "/". Returns (path, base route index).
+fn paths(edit_chars: &[u8]) -> Vec<(String, Option<usize>)> {
+  let mut out: Vec<(String, Option<usize>)> = Vec::new();
+  let mut seen: HashSet<String> = HashSet::new();
+  for (i, r) in ROUTES.iter().enumerate() {
+    seen.insert(r.path.to_string());
+    out.push((r.path.to_string(), Some(i)));
+  }
+  seen.insert("/".into());
+  out.push(("/".into(), None));
+  for (i, r) in ROUTES.iter().enumerate() {
+    let b = r.path.as_bytes();
+    let mut cands: Vec<Vec<u8>> = Vec::new();
+    for p in 1..b.len() {
+      let mut d = b.to_vec();
+      d.remove(p);
+      cands.push(d);
+    }
+    for p in 1..b.len() {
+      for &c in edit_chars {
+        if b[p] != c {
+          let mut s = b.to_vec();
+          s[p] = c;
+          cands.push(s);
+        }
+      }
+    }
+    for p in 1..=b.len() {
+      for &c in edit_chars {
+        let mut s = b.to_vec();
+        s.insert(p, c);
+        cands.push(s);
+      }
+    }
+    for c in cands {
+      let s = String::from_utf8(c).unwrap();
+      if seen.insert(s.clone()) {
+        out.push((s, Some(i)));
+      }
+    }
+  }
+  out
+}
+
+/// Single-edit neighbours of `valid` over the replacement alphabet `repl`.
+fn mutants(valid: &[u8], repl: &[u8]) -> Vec<(Vec<u8>, String)> {
+  let mut out = Vec::new();
+  let mut seen: HashSet<Vec<u8>> = HashSet::new();
+  seen.insert(valid.to_vec());
+  for p in 0..valid.len() {
+    let mut d = valid.to_vec();
+    d.remove(p);
+    if seen.insert(d.clone()) {
+      out.push((d, format!("valid body with byte {p} ({}) deleted", printable(valid[p]))));
+    }
+  }
+  for p in 0..valid.len() {
+    for &c in repl {
+      if valid[p] != c {
+        let mut s = valid.to_vec();
+        s[p] = c;
+        if seen.insert(s.clone()) {
+          out.push((s, format!("valid body with byte {p} ({}) replaced by {}", printable(valid[p]), printable(c))));
+        }
+      }
+    }
+  }
+  for p in 0..=valid.len() {
+    for &c in repl {
+      let mut s = valid.to_vec();
+      s.insert(p, c);
+      if seen.insert(s.clone()) {
+        out.push((s, format!("valid body with {} inserted at byte {p}", printable(c))));
+      }
+    }
+  }
+  out
+}
+
+fn oversize_body() -> Vec<u8> {
+  // a syntactically valid NDJSON / JSON-looking payload padded to max_body + 1 bytes
+  let mut b = b"{\"_id\":\"k\",\"body\":\"".to_vec();
+  while b.len() < MAX_BODY + 1 - 3 {
+    b.push(b'a');
+  }
+  b.extend_from_slice(b"\"}\n");
+  assert_eq!(b.len(), MAX_BODY + 1);
+  b
+}
+
+fn err_searches() -> Vec<(String, Value)> {
+  let e20 = "é".repeat(20);
+  let base = |extra: Value| {
+    let mut v = json!({"query": {"type": "match_all"}, "limit": 5, "return_stored": false});
+    for (k, x) in extra.as_object().unwrap() {
+      v[k] = x.clone();
+    }
+    v
+  };
+  vec![
+    ("cursor 'a'+'é'x20+'a'".into(), base(json!({"cursor": format!("a{e20}a")}))),
+    ("cursor '0'+'é'x3+'0' with a sort".into(), base(json!({"cursor": "0ééé0", "sort": [{"field": "_score", "order": "asc"}]}))),
+    ("cursor 'é'x21".into(), base(json!({"cursor": "é".repeat(21)}))),
+    ("cursor 'zz'".into(), base(json!({"cursor": "zz"}))),
+    ("cursor ''".into(), base(json!({"cursor": ""}))),
+    ("limit 0".into(), base(json!({"limit": 0}))),
+    ("sort on unknown field".into(), base(json!({"sort": [{"field": "nope", "order": "asc"}]}))),
+    ("terms aggregation on a non-fast field".into(), base(json!({"aggs": {"t": {"type": "terms", "field": "body", "size": 3}}}))),
+    ("filter on unknown field".into(), base(json!({"filter": {"KeywordEq": {"field": "nope", "value": "x"}}}))),
+    ("query string 'body:('".into(), base(json!({"query": "body:("}))),
+    ("highlight_field unknown".into(), base(json!({"query": "rust", "highlight_field": "nope"}))),
+    ("collapse on unknown field".into(), base(json!({"collapse": {"field": "nope"}}))),
+    ("fields [nope]".into(), base(json!({"query": "rust", "fields": ["nope"]}))),
+    ("unknown query type".into(), base(json!({"query": {"type": "nonexistent"}}))),
+    ("completion suggest on unknown field".into(), base(json!({"suggest": {"s": {"type": "completion", "field": "nope", "prefix": "ru", "size": 3}}}))),
+    ("bmw with bmw_block_size 0".into(), base(json!({"query": "rust", "execution": "bmw", "bmw_block_size": 0}))),
+    ("candidate_size 0".into(), base(json!({"query": "rust", "candidate_size": 0}))),
+  ]
+}
+
+struct Space {
+  reqs: Vec<Req>,
+  counts: BTreeMap<&'static str, usize>,
+}
+
+fn build_space(quick: bool) -> Space {
+  let mut reqs: Vec<Req> = Vec::new();
+  let mut seen = HashSet::new();
+  let mut counts: BTreeMap<&'static str, usize> = BTreeMap::new();
+  let mut push = |r: Req, cat: &'static str, reqs: &mut Vec<Req>| {
+    if seen.insert(r.key()) {
+      *counts.entry(cat).or_default() += 1;
+      reqs.push(r);
+    }
+  };
+  // ---- A: routing space
+  let edit_chars: &[u8] = if quick { b"x" } else { b"x/A" };
+  let all_paths = paths(edit_chars);
+  for (path, base) in &all_paths {
+    let exact = route_of(path).is_some();
+    let ctypes: Vec<Option<&'static str>> = if quick && !exact { vec![None, Some(JSON)] } else { CTYPES.to_vec() };
+    for &method in &METHODS {
+      for &ct in &ctypes {
+        let mut bodies: Vec<(Option<Vec<u8>>, Class, String)> = vec![(None, Class::NoBody, "<no body>".into()), (Some(b"{".to_vec()), Class::Brace, "'{'".into())];
+        if !quick || exact {
+          bodies.push((Some(Vec::new()), Class::Empty, "<empty, Content-Length: 0>".into()));
+          if let Some((_, vb)) = base.and_then(|i| ROUTES[i].body) {
+            bodies.push((Some(vb.as_bytes().to_vec()), Class::Valid, format!("valid {} body", ROUTES[base.unwrap()].path)));
+          }
+        }
+        for (b, class, desc) in bodies {
+          push(Req { method, path: path.clone(), ctype: ct, body: b, class, desc }, if exact { "routing:known-path" } else { "routing:unknown-path" }, &mut reqs);
+        }
+      }
+    }
+  }
+  // ---- B: body space on the real routes with their method
+  let repl: &[u8] = if quick { b"\"}0\xff" } else { b"\"{}[]:,0a \n\\\x00\xff" };
+  for r in ROUTES.iter() {
+    let ctypes: Vec<Option<&'static str>> = match (quick, r.body) {
+      (true, Some((doc_ct, _))) => vec![Some(doc_ct), None],
+      (true, None) => vec![None],
+      _ => CTYPES.to_vec(),
+    };
+    for &ct in &ctypes {
+      push(Req { method: r.method, path: r.path.into(), ctype: ct, body: Some(vec![0xff, 0xfe, b'{', 0xc3]), class: Class::NonUtf8, desc: "non-UTF-8 bytes ff fe 7b c3".into() }, "body:non-utf8", &mut reqs);
+      push(
+        Req { method: r.method, path: r.path.into(), ctype: ct, body: Some(oversize_body()), class: Class::Oversize, desc: format!("{} bytes (max_body_bytes + 1)", MAX_BODY + 1) },
+        "body:oversize",
+        &mut reqs,
+      );
+      for (k, vb) in valid_bodies(r).into_iter().enumerate() {
+        if k > 0 {
+          if quick {
+            break;
+          }
+          push(Req { method: r.method, path: r.path.into(), ctype: ct, body: Some(vb.as_bytes().to_vec()), class: Class::Valid, desc: format!("second valid {} body {}", r.path, vb.replace('\n', "\\n")) }, "body:second-valid", &mut reqs);
+        }
+        for (m, d) in mutants(vb.as_bytes(), repl) {
+          push(Req { method: r.method, path: r.path.into(), ctype: ct, body: Some(m), class: Class::Mutant, desc: format!("{d} [valid = {}]", vb.replace('\n', "\\n")) }, "body:single-edit-neighbour", &mut reqs);
+        }
+      }
+    }
+  }
+  for (d, v) in err_searches() {
+    push(Req { method: "POST", path: "/search".into(), ctype: Some(JSON), body: Some(v.to_string().into_bytes()), class: Class::ErrSearch, desc: format!("{d}: {v}") }, "body:error-search", &mut reqs);
+  }
+  Space { reqs, counts }
+}
+
+// ---------------------------------------------------------------------------------------------
+// oracle
+
+fn is_int(v: Option<&Value>) -> bool {
+  v.map(|x| x.is_u64() || x.is_i64()).unwrap_or(false)
+}
+fn is_str(v: Option<&Value>) -> bool {
+  v.map(|x| x.is_string()).unwrap_or(false)
+}
+fn is_bool(v: Option<&Value>) -> bool {
+  v.map(|x| x.is_boolean()).unwrap_or(false)
+}
+
+/// Documented 2xx shape (openapi.yaml components) for `route`.
+fn shape_ok(route: &Route, v: &Value) -> Result<(), String> {
+  let Some(o) = v.as_object() else {
+    return Err("2xx body is not a JSON object".into());
+  };
+  let need = |ok: bool, what: &str| if ok { Ok(()) } else { Err(format!("2xx body lacks {what}")) };
+  match route.path {
+    "/healthz" => need(is_str(o.get("status")), "status:string"),
+    "/init" => need(is_bool(o.get("created")), "created:boolean"),
+    "/add" | "/bulk" | "/delete" => need(is_int(o.get("queued")), "queued:integer"),
+    "/commit" => need(is_bool(o.get("committed")), "committed:boolean"),
+    "/refresh" => need(is_bool(o.get("refreshed")), "refreshed:boolean"),
+    "/compact" => need(is_bool(o.get("compacted")), "compacted:boolean"),
+    "/search" => {
+      need(is_int(o.get("total_hits_estimate")), "total_hits_estimate:integer")?;
+      let Some(hits) = o.get("hits").and_then(|h| h.as_array()) else {
+        return Err("2xx body lacks hits:array".into());
+      };
+      for h in hits {
+        need(is_str(h.get("doc_id")), "hits[].doc_id:string")?;
+        need(h.get("score").map(|s| s.is_number()).unwrap_or(false), "hits[].score:number")?;
+      }
+      Ok(())
+    }
+    "/inspect" => {
+      let Some(m) = o.get("manifest").and_then(|m| m.as_object()) else {
+        return Err("2xx body lacks manifest:object".into());
+      };
+      need(is_int(m.get("version")), "manifest.version:integer")?;
+      need(is_str(m.get("uuid")), "manifest.uuid:string")?;
+      need(is_str(m.get("committed_at")), "manifest.committed_at:string")?;
+      need(m.get("schema").map(|s| s.is_object()).unwrap_or(false), "manifest.schema:object")?;
+      need(m.get("segments").map(|s| s.is_array()).unwrap_or(false), "manifest.segments:array")
+    }
+    "/stats" => {
+      for k in ["documents", "deleted_documents", "segments"] {
+        need(is_int(o.get(k)), &format!("{k}:integer"))?;
+      }
+      for k in ["committed_at", "index_uuid", "index_path"] {
+        need(is_str(o.get(k)), &format!("{k}:string"))?;
+      }
+      Ok(())
+    }
+    _ => Ok(()),
+  }
+}
+
+/// True when the documentation leaves no doubt that `body` is not a valid request body of `route`.
+fn definitely_invalid(route: &Route, body: &[u8]) -> bool {
+  if route.path == "/add" {
+    let Ok(text) = std::str::from_utf8(body) else {
+      return true;
+    };
+    return text.split('\n').any(|line| {
+      let t = line.trim();
+      !t.is_empty() && !matches!(serde_json::from_str::<Value>(t), Ok(Value::Object(_)))
+    });
+  }
+  // Only the first JSON value counts: the documentation does not say what happens to bytes that
+  // follow a complete JSON document (the server ignores them), so such bodies are not "certainly
+  // invalid".
+  let Some(Ok(v)) = serde_json::Deserializer::from_slice(body).into_iter::<Value>().next() else {
+    return true;
+  };
+  let Some(o) = v.as_object() else {
+    return true;
+  };
+  match route.path {
+    "/init" => ["text_fields", "keyword_fields", "numeric_fields"].iter().any(|k| !o.get(*k).map(|x| x.is_array()).unwrap_or(false)),
+    "/bulk" => !o.get("docs").and_then(|d| d.as_array()).map(|a| !a.is_empty() && a.iter().all(|d| d.is_object())).unwrap_or(false),
+    "/delete" => !o.get("ids").and_then(|d| d.as_array()).map(|a| !a.is_empty() && a.iter().all(|d| d.as_str().map(|s| !s.trim().is_empty() && s.trim() == s).unwrap_or(false))).unwrap_or(false),
+    "/search" => !o.contains_key("query"),
+    _ => false,
+  }
+}
+
+struct Verdict {
+  outcome: String,
+  failure: Option<(Option<&'static str>, String)>,
+  non_2xx: bool,
+}
+
+fn judge(st: St, req: &Req, out: &Result<Resp, String>, panics: &[String]) -> Verdict {
+  let route = route_of(&req.path);
+  let method_ok = route.map(|r| r.method == req.method).unwrap_or(false);
+  let fail = |sig: Option<&'static str>, msg: String, outcome: String, non_2xx: bool| Verdict {
+    outcome,
+    failure: Some((sig, format!("state {}: {} -> {}{}", st.name(), req.line(), msg, if panics.is_empty() { String::new() } else { format!(" [server panic: {}]", panics.join(" | ")) }))),
+    non_2xx,
+  };
+  let resp = match out {
+    Err(e) => {
+      let sig = if !panics.is_empty() && !e.starts_with("timeout") && !e.starts_with("connect") { Some(SIG_PANIC_DROP) } else { None };
+      return fail(sig, format!("no HTTP response: {e}"), "no-response".into(), true);
+    }
+    Ok(r) => r,
+  };
+  let status = resp.status;
+  let two = resp.is_2xx();
+  let env = envelope(&resp.body);
+  let outcome = format!(
+    "{}:{}:{}",
+    if route.is_none() { "unknown-path" } else if !method_ok { "wrong-method" } else { route.unwrap().path },
+    status,
+    if two { "ok".to_string() } else { env.as_ref().map(|e| e.0.clone()).unwrap_or_else(|| if resp.body.is_empty() { "<empty body>".into() } else { "<no envelope>".into() }) }
+  );
+  let shown = format!("{} {}", status, if resp.body.is_empty() { "<empty body>".to_string() } else { resp.body_text() });
+  // ---- well-formedness
+  if !two && env.is_none() {
+    let sig = match route {
+      None if status == 404 && resp.body.is_empty() => Some(SIG_UNKNOWN_ROUTE),
+      Some(_) if !method_ok && status == 405 && resp.body.is_empty() => Some(SIG_METHOD),
+      _ => None,
+    };
+    return fail(sig, format!("{shown}; every non-2xx response must carry {{\"error\":{{\"type\":string,\"reason\":string}}}}"), outcome, true);
+  }
+  if !resp.header("content-type").map(|c| c.to_ascii_lowercase().starts_with("application/json")).unwrap_or(false) {
+    return fail(None, format!("{shown} with Content-Type {:?}; documented responses are application/json", resp.header("content-type")), outcome, !two);
+  }
+  if two {
+    let Some(v) = resp.json() else {
+      return fail(None, format!("{shown}: 2xx body is not JSON"), outcome, false);
+    };
+    if let (Some(r), true) = (route, method_ok) {
+      if let Err(e) = shape_ok(r, &v) {
+        return fail(None, format!("{shown}: {e}"), outcome, false);
+      }
+    }
+  }
+  // ---- status
+  let five = status >= 500;
+  let four = (400..500).contains(&status);
+  let expect: Result<(), String> = match (route, method_ok) {
+    (None, _) => {
+      if four { Ok(()) } else { Err("a 4xx error for an unknown path".into()) }
+    }
+    (Some(_), false) => {
+      if four { Ok(()) } else { Err("a 4xx error for an unsupported method".into()) }
+    }
+    (Some(r), true) => {
+      let missing = st == St::NoIndex && r.needs_index;
+      let normal = if r.path == "/init" {
+        if st == St::NoIndex { 200 } else { 409 }
+      } else if missing {
+        404
+      } else {
+        200
+      };
+      let body = req.body.as_deref();
+      match req.class {
+        Class::Oversize => {
+          let ok = status == 413 || (missing && status == 404) || (r.body.is_none() && status == normal);
+          if ok { Ok(()) } else { Err(format!("413 for a body of {} bytes with --max-body-bytes {MAX_BODY}", MAX_BODY + 1)) }
+        }
+        _ if r.body.is_none() => {
+          if matches!(req.class, Class::NoBody | Class::Empty) {
+            if status == normal { Ok(()) } else { Err(format!("{normal}")) }
+          } else if five || (missing && !four) {
+            Err("2xx or 4xx (4xx while the index is missing)".into())
+          } else {
+            Ok(())
+          }
+        }
+        _ => {
+          let (doc_ct, _) = r.body.unwrap();
+          let exact_valid = valid_bodies(r).iter().any(|vb| body == Some(vb.as_bytes())) && (req.ctype == Some(doc_ct));
+          if exact_valid {
+            if status == normal { Ok(()) } else { Err(format!("{normal} for the documented valid request")) }
+          } else if body.map(|b| definitely_invalid(r, b)).unwrap_or(true) && !(r.path == "/add" && body.map(|b| b.is_empty()).unwrap_or(true)) {
+            if four { Ok(()) } else { Err("a 4xx error for an invalid request body".into()) }
+          } else if five {
+            Err("2xx or 4xx (a request is either valid or invalid input)".into())
+          } else if (missing || (r.path == "/init" && st != St::NoIndex)) && !four {
+            Err(if missing { "a 4xx error while the index is missing".into() } else { "a 4xx error: the index already exists".into() })
+          } else {
+            Ok(())
+          }
+        }
+      }
+    }
+  };
+  match expect {
+    Ok(()) => Verdict { outcome, failure: None, non_2xx: !two },
+    Err(want) => {
+      // narrow: a /search whose `cursor` string contains non-ASCII characters made the blocking
+      // search task panic on a UTF-8 slicing error and the join error was mapped to 500
+      let non_ascii_cursor = req
+        .body
+        .as_deref()
+        .and_then(|b| serde_json::from_slice::<Value>(b).ok())
+        .and_then(|v| v.get("cursor").and_then(|c| c.as_str()).map(|c| !c.is_ascii()))
+        .unwrap_or(false);
+      let sig = if status == 500
+        && req.path == "/search"
+        && method_ok
+        && non_ascii_cursor
+        && env.as_ref().map(|e| e.0 == "search_join").unwrap_or(false)
+        && panics.iter().any(|p| p.contains("Utf8Error"))
+      {
+        Some(SIG_PANIC_500)
+      } else {
+        None
+      };
+      fail(sig, format!("{shown}; expected {want}"), outcome, !two)
+    }
+  }
+}
+
+// ---------------------------------------------------------------------------------------------
+// sessions
+
+fn setup(st: St) -> Server {
+  let mb = MAX_BODY.to_string();
+  let srv = Server::fresh("c24", &["--max-body-bytes", &mb]);
+  let must = |what: &str, r: Result<Resp, String>| match r {
+    Ok(r) if r.is_2xx() => {}
+    Ok(r) => vcore::ev::machinery_failure(&format!("C24 setup {what}: {} {}", r.status, r.body_text())),
+    Err(e) => vcore::ev::machinery_failure(&format!("C24 setup {what}: {e}")),
+  };
+  if st != St::NoIndex {
+    must("/init", srv.post_json("/init", &http_schema()));
+    must("/add", srv.send("POST", "/add", Some(NDJSON), Some(b"{\"_id\":\"k\",\"body\":\"rust search\"}\n{\"_id\":\"m\",\"body\":\"more rust\"}\n")));
+    must("/commit", srv.send("POST", "/commit", None, None));
+  }
+  if st == St::Queued {
+    must("/add", srv.send("POST", "/add", Some(NDJSON), Some(b"{\"_id\":\"q\",\"body\":\"queued rust\"}\n")));
+  }
+  srv
+}
+
+/// Did this exchange (possibly) change the server state the oracle depends on?
+fn dirties(st: St, req: &Req, out: &Result<Resp, String>) -> bool {
+  let Some(r) = route_of(&req.path) else {
+    return false;
+  };
+  if r.method != req.method || !matches!(r.path, "/init" | "/add" | "/bulk" | "/delete" | "/commit" | "/compact") {
+    return false;
+  }
+  match out {
+    Err(_) => true,
+    Ok(resp) => {
+      if resp.status >= 500 {
+        return true;
+      }
+      if resp.is_2xx() {
+        return match r.path {
+          "/commit" => st == St::Queued,
+          "/compact" => false,
+          "/add" | "/bulk" | "/delete" => resp.json().and_then(|v| v.get("queued").and_then(|q| q.as_u64())) != Some(0),
+          _ => true,
+        };
+      }
+      match resp.error_type().as_deref() {
+        Some("add_failed") | Some("delete_failed") | Some("init_failed") => true,
+        _ => r.path == "/init" && st == St::NoIndex && resp.error_type().as_deref() != Some("invalid_request"),
+      }
+    }
+  }
+}
+
+struct One {
+  verdict: Verdict,
+  health_failure: Option<String>,
+  dirty: bool,
+}
+
+fn run_one(srv: &Server, st: St, req: &Req) -> One {
+  let bytes = request_bytes(req.method, &req.path, req.ctype, req.body.as_deref());
+  let out = exchange(srv.port, &bytes, TIMEOUT);
+  // a panic message is recorded before the connection task unwinds; give the hook a moment only
+  // when the response is missing
+  if out.is_err() {
+    std::thread::sleep(Duration::from_millis(5));
+  }
+  let panics = srv.take_panics();
+  let verdict = judge(st, req, &out, &panics);
+  let h = exchange(srv.port, &request_bytes("GET", "/healthz", None, None), TIMEOUT);
+  let health_failure = match h {
+    Ok(r) if r.status == 200 && r.json().map(|v| v.get("status").map(|s| s.is_string()).unwrap_or(false)).unwrap_or(false) => None,
+    Ok(r) => Some(format!("GET /healthz afterwards answered {} {}", r.status, r.body_text())),
+    Err(e) => Some(format!("GET /healthz afterwards got no response: {e}")),
+  };
+  if !srv.is_running() {
+    vcore::ev::machinery_failure(&format!("C24: server task ended after {}", req.line()));
+  }
+  let dirty = dirties(st, req, &out) || health_failure.is_some();
+  One { verdict, health_failure, dirty }
+}
+
+pub fn run(ctx: &Ctx) -> i32 {
+  let mut rep = Reporter::new("C24", ctx.tier, "exploration");
+  let quick = ctx.tier.is_quick();
+  if let Some(path) = &ctx.replay {
+    rep.set_replaying(true);
+    let v: Value = serde_json::from_slice(&std::fs::read(path).expect("replay file")).expect("json");
+    let (st, req) = Req::from_json(&v["case"]);
+    let once = || {
+      let srv = setup(st);
+      let o = run_one(&srv, st, &req);
+      match (o.verdict.failure, o.health_failure) {
+        (Some((sig, w)), _) => Some((sig, w)),
+        (None, Some(h)) => Some((None, format!("state {}: {} -> {h}", st.name(), req.line()))),
+        (None, None) => None,
+      }
+    };
+    let (a, b) = (once(), once());
+    if a.is_some() != b.is_some() {
+      vcore::ev::machinery_failure("NONDETERMINISM on replay");
+    }
+    return match a {
+      Some((sig, w)) => {
+        println!("VIOLATION property=C24 replay={path}\n  signature: {}\n  what: {w}", sig.unwrap_or("-"));
+        1
+      }
+      None => {
+        println!("replay: no violation");
+        0
+      }
+    };
+  }
+
+  let space = build_space(quick);
+  let states = [St::NoIndex, St::Index, St::Queued];
+  let chunk = 250;
+  let mut jobs: Vec<(St, usize, usize)> = Vec::new();
+  for &st in &states {
+    let mut i = 0;
+    while i < space.reqs.len() {
+      jobs.push((st, i, (i + chunk).min(space.reqs.len())));
+      i += chunk;
+    }
+  }
+  let deadline = if quick { 32.0 } else { 840.0 };
+  let timed_out = AtomicBool::new(false);
+  let evals = AtomicU64::new(0);
+  let non2xx = AtomicU64::new(0);
+  let restarts = AtomicU64::new(0);
+  let outcomes: Mutex<BTreeMap<String, u64>> = Mutex::new(BTreeMap::new());
+  // failures are gathered and reported in enumeration order so that the first one is minimal
+  let failures: Mutex<Vec<(usize, usize, Option<&'static str>, String, Value)>> = Mutex::new(Vec::new());
+  jobs.par_iter().for_each(|&(st, lo, hi)| {
+    let mut srv: Option<Server> = None;
+    let mut local: BTreeMap<String, u64> = BTreeMap::new();
+    for i in lo..hi {
+      if rep.elapsed_s() > deadline {
+        timed_out.store(true, Ordering::Relaxed);
+        break;
+      }
+      let req = &space.reqs[i];
+      if srv.is_none() {
+        srv = Some(setup(st));
+        restarts.fetch_add(1, Ordering::Relaxed);
+      }
+      let o = run_one(srv.as_ref().unwrap(), st, req);
+      evals.fetch_add(1, Ordering::Relaxed);
+      if o.verdict.non_2xx {
+        non2xx.fetch_add(1, Ordering::Relaxed);
+      }
+      *local.entry(o.verdict.outcome.clone()).or_default() += 1;
+      if let Some((sig, what)) = o.verdict.failure {
+        failures.lock().push((st as usize, i, sig, what, req.to_json(st)));
+      } else if let Some(h) = &o.health_failure {
+        failures.lock().push((st as usize, i, None, format!("state {}: {} -> {h}", st.name(), req.line()), req.to_json(st)));
+      } else if i % 997 == 0 {
+        rep.sample(json!({"state": st.name(), "request": req.line(), "outcome": o.verdict.outcome}));
+      }
+      if o.dirty {
+        srv = None;
+      }
+    }
+    let mut g = outcomes.lock();
+    for (k, n) in local {
+      *g.entry(k).or_default() += n;
+    }
+  });
+  let mut fs = failures.into_inner();
+  fs.sort_by_key(|f| (f.1, f.0));
+  // the minimal witness of every failure class first (only the first few get a replay file)
+  {
+    let mut seen_sig: HashSet<Option<&'static str>> = HashSet::new();
+    let (firsts, rest): (Vec<_>, Vec<_>) = fs.into_iter().partition(|f| seen_sig.insert(f.2));
+    fs = firsts;
+    fs.extend(rest);
+  }
+  let mut by_sig: BTreeMap<String, u64> = BTreeMap::new();
+  for (_, _, sig, what, case) in &fs {
+    *by_sig.entry(sig.unwrap_or("-").to_string()).or_default() += 1;
+    rep.fail(*sig, what, case.clone());
+  }
+  rep.add_evals(evals.load(Ordering::Relaxed));
+  let oc = outcomes.into_inner();
+  if oc.len() < 2 {
+    vcore::ev::machinery_failure(&format!("C24 vacuous: outcomes {oc:?}"));
+  }
+  let to = timed_out.load(Ordering::Relaxed);
+  let cov = vcore::cov! {
+    "distinct_nontrivial" => non2xx.load(Ordering::Relaxed),
+    "rule" => "space = states {no index, index (2 committed docs), index + 1 queued doc} x distinct well-framed HTTP/1.1 requests: (A) methods {GET,POST,PUT,DELETE} x paths {11 routes, every single-character deletion / substitution / insertion of every route keeping the leading '/', '/'} x content types {application/json, application/x-ndjson, none, text/plain} x bodies {no body, Content-Length 0, '{', the valid body of the base route}; (B) every route with its method x content types x {non-UTF-8 bytes, max_body+1 bytes, every single-edit neighbour (delete / replace / insert over the replacement alphabet) of the route's valid bodies (one per route in the quick tier, two in the thorough tier)}, plus /search requests known to make the core error or panic. Each request runs on a live server in exactly the stated state (the server is rebuilt after any request that may have changed it) and is followed by GET /healthz. A case is non-trivial when it is answered with a non-2xx status (a failure path ran).",
+    "requests_per_state" => space.reqs.len(),
+    "states" => states.iter().map(|s| s.name()).collect::<Vec<_>>(),
+    "space_breakdown" => space.counts,
+    "path_edit_alphabet" => if quick { "x" } else { "x / A" },
+    "body_replacement_alphabet" => if quick { "\" } 0 0xff" } else { "\" { } [ ] : , 0 a <space> \\n \\ 0x00 0xff" },
+    "servers_started" => restarts.load(Ordering::Relaxed),
+    "distinct_observed_outcomes" => oc.len(),
+    "observed_outcomes" => oc,
+    "failures_by_signature" => by_sig,
+    "exhaustive" => !to,
+    "cap_hit" => if to { Some(format!("wall budget {deadline}s")) } else { None },
+  };
+  rep.finish(
+    cov,
+    vec![
+      "only well-framed HTTP/1.1 requests with a request target made of [a-z/x] are sent; protocol-level garbage (bad request line, Content-Length mismatch, truncated bodies) is answered by hyper below the application and the documentation is silent about it".into(),
+      "for a body that is neither the documented valid one nor certainly invalid the oracle accepts 2xx (with the documented shape) or 4xx (with the envelope), never 5xx".into(),
+      "an oversized body must give 413; 404 is also accepted while the index is missing, and the normal answer is accepted on routes that take no body".into(),
+      "bytes following a complete JSON document in a JSON request body are not treated as certainly invalid (observed: the server ignores them and answers 2xx)".into(),
+      "NDJSON blank lines are lines that are empty after trimming whitespace (the replacement alphabet contains no exotic Unicode whitespace)".into(),
+      "search requests with huge limit / candidate_size values are left out (allocation failure would abort the harness process)".into(),
+    ],
+  )
 }
